@@ -4,7 +4,8 @@ Theorem side : GrogModel/Props/C09.lean — key_eq_iff for all pairs of states (
 Correspondence: hashing.GetTargetChangeHash of the current tree under hash_algorithm=sha256 vs the Lean model's
                 key computed with the model's own SHA-256 over the model's byte stream: byte-exact. This is what
                 transfers the injectivity theorem about `enc` to the real byte stream without a hook.
-                xxh3 shares the stream; it is tied by the equal/unequal pattern over all generated pairs.
+                The same under the default hash_algorithm=xxh3: the model carries its own XXH3-128 (GrogModel/Xxh3.lean), validated
+                against grog's hasher on every run at every length class and block boundary, so xxh3 keys are compared byte-exactly too.
 Oracle (no model): for every generated pair of states, "real keys equal  <=>  states equal" where state
                 equality is computed in Python from the property text (label, command, set of (path, content),
                 outputs, fingerprint map, platform unless multiplatform, dependency digests).
@@ -20,9 +21,9 @@ LEVEL_TEXT = ("Lean 4 theorem key_eq_iff: for all pairs of target states, the mo
               "code by comparing real SHA-256 keys byte-for-byte on every run, and a model-independent pair oracle searches the real "
               "code for collisions / spurious differences (boundary shifts, separators inside elements, permutations).")
 LEVEL_NOTE = ("Trusted: Lean kernel; axioms propext/Classical.choice/Quot.sound; hash functions are parameters (collision resistance of "
-              "xxh3-128/SHA-256 is not claimed); Lean SHA-256 implementation validated against crypto/sha256 on every run; component "
+              "xxh3-128/SHA-256 is not claimed); Lean SHA-256 and XXH3-128 implementations validated against crypto/sha256 and zeebo/xxh3 on every run; component "
               "lengths < 2^64; glob resolution and file reading (os.Open/Stat/io.Copy) outside the model; sampled correspondence.")
-TECHNIQUE = "Lean 4 proof (injective framing + canonical sorting) + byte-exact SHA-256 key correspondence + pair oracle on the real hasher"
+TECHNIQUE = "Lean 4 proof (injective framing + canonical sorting) + byte-exact SHA-256 and XXH3-128 key correspondence + pair oracle on the real hasher"
 OBLIGATIONS = [
     "Grog.C09.key_eq_iff",
     "Grog.C09.key_eq_state_or_collision",
@@ -238,6 +239,22 @@ def run(ctx):
         ctx.violation("the model's SHA-256 disagrees with crypto/sha256", {"kind": "correspondence", "correspondence": "Sha256.lean vs crypto/sha256",
                       "request": sha_bad[0][0], "impl": sha_bad[0][1], "model": sha_bad[0][2]}, found_input=False)
         return
+    # ---- 0b. XXH3-128 of the model vs grog's xxh3 hasher (every length class and block boundary) ---
+    xlens = list(range(0, 20)) + [31, 32, 33, 63, 64, 65, 95, 96, 97, 127, 128, 129, 159, 160, 161, 191, 192, 223, 224, 239, 240, 241, 255, 256, 300,
+                                  1023, 1024, 1025, 1087, 1088, 1089, 2047, 2048, 2049, 3000, 4097]
+    xreqs = [{"op": "hash.xxh3", "s": "".join(chr(rng.randrange(256)) for _ in range(n))} for n in xlens for _ in range(2)]
+    a, b = ctx.impl(xreqs, env=env), ctx.model(xreqs)
+    if a is None:
+        return
+    ctx.coverage["xxh3_vectors"] = len(xreqs)
+    xbad = [(r, x, y) for r, x, y in zip(xreqs, a, b) if x != y]
+    xxh3_tied = not xbad
+    if xbad:
+        # the hasher grog uses for hash_algorithm=xxh3 no longer computes XXH3-128 of what is written to it. That alone is not a
+        # violation (any function of the stream will do); the keys under xxh3 are then judged by the pair oracle only, and the
+        # break is reported only if nothing else explains it.
+        ctx.coverage["xxh3_vector_disagreements"] = len(xbad)
+        ctx.notes.append("xxh3 hasher differs from XXH3-128 on %d/%d vectors; first length %d" % (len(xbad), len(xreqs), len(xbad[0][0]["s"])))
     # ---- 1. pairs ---------------------------------------------------------------------------------
     pairs = [(fam, s1, s2) for fam, s1, s2 in targeted_pairs()]
     nrand = 700 if quick else 12000
@@ -247,7 +264,7 @@ def run(ctx):
         pairs.append(("random:" + kind, s, t))
     ctx.coverage["rule"] = (f"{len(targeted_pairs())} targeted adversarial pairs (boundary shifts between every pair of adjacent key components, separators inside "
                             f"elements, missing vs empty file, duplicates, permutations) + {nrand} random states each paired with a small semantic edit; every state "
-                            "hashed by the real GetTargetChangeHash under sha256 (compared byte-exactly with the model) and xxh3 (equality pattern), "
+                            "hashed by the real GetTargetChangeHash under sha256 and xxh3 (both compared byte-exactly with the model's key, the model computing SHA-256 / XXH3-128 itself), "
                             "twice under different workspace locations and map orders; non-trivial = pair of different states")
     reqs, idx = [], []
     for i, (fam, s1, s2) in enumerate(pairs):
@@ -273,7 +290,7 @@ def run(ctx):
                           {"kind": "oracle", "oracle": "key is a function of the state", "state1": pairs[i][which], "state2": pairs[i][which], "key1": first, "key2": k},
                           signature="nondeterministic-key")
     ctx.coverage["determinism_repeats"] = len(rep_reqs)
-    sha_reqs = [r for r in reqs if r["algo"] == "sha256"]
+    sha_reqs = [r for r in reqs if r["algo"] == "sha256" or xxh3_tied]
     model = iter(ctx.model(sha_reqs))
     keys = {}
     disagreements = []
@@ -282,7 +299,7 @@ def run(ctx):
         keys[(i, which, algo)] = x.get("key") if isinstance(x, dict) else None
         if "panic" in x or "error" in x:
             ctx.violation("hashing crashed", {"kind": "impl-crash", "request": r, "impl": x}, signature="hash-crash")
-        if algo == "sha256":
+        if algo == "sha256" or xxh3_tied:
             y = next(model)
             if x != y:
                 disagreements.append((pairs[i][0], r, x, y))
@@ -326,6 +343,13 @@ def run(ctx):
         # states on which the property itself fails (wider random sweep, oracle only, both algorithms)
         found = search_failing_pair(ctx, env, 6000 if quick else 30000)
         ctx.coverage["search_pairs_after_break"] = found
+    if xbad and not ctx.violations:
+        ctx.coverage["search_pairs_after_hasher_break"] = search_hasher_break(ctx, env, [len(r["s"]) for r, _, _ in xbad])
+    if xbad and not ctx.violations and not disagreements:
+        r, x, y = xbad[0]
+        ctx.violation("grog's xxh3 hasher no longer computes XXH3-128 of the bytes written to it, so the keys under the default hash_algorithm are no longer tied to the model's stream",
+                      {"kind": "correspondence", "correspondence": "hashing.GetHasher (xxh3) vs GrogModel.Xxh3.xxh3Hex", "request": r, "impl": x, "model": y,
+                       "n_disagreements": len(xbad)}, found_input=False)
     if disagreements and not ctx.violations:
         fam, r, x, y = disagreements[0]
         ctx.violation("real SHA-256 cache key differs from the model's key (byte stream of the model no longer matches the code)",
@@ -384,9 +408,10 @@ def outhash_section(ctx, env):
     impl = ctx.impl(reqs, env=env)
     if impl is None:
         return
-    sha = [r for r in reqs if r["algo"] == "sha256"]
+    tied = ("sha256", "xxh3") if ctx.coverage.get("xxh3_vector_disagreements", 0) == 0 else ("sha256",)
+    sha = [r for r in reqs if r["algo"] in tied]
     model = ctx.model(sha)
-    dis = [(r, x, y) for r, x, y in zip(sha, [x for r, x in zip(reqs, impl) if r["algo"] == "sha256"], model) if x != y]
+    dis = [(r, x, y) for r, x, y in zip(sha, [x for r, x in zip(reqs, impl) if r["algo"] in tied], model) if x != y]
     ctx.coverage["outhash_evaluations"] = len(reqs)
     ctx.coverage["evaluations"] += len(reqs)
     ctx.coverage["outhash_disagreements"] = len(dis)
@@ -410,6 +435,38 @@ def outhash_section(ctx, env):
         ctx.violation("real output hash / protobuf marshalling differs from the model", {"kind": "correspondence",
                       "correspondence": "output.getOutputHash + proto.Marshal vs GrogModel.Proto.serOutput / Hash.outHash", "request": r, "impl": x, "model": y,
                       "n_disagreements": len(dis)}, found_input=False)
+
+
+def search_hasher_break(ctx, env, bad_lengths):
+    """The xxh3 hasher no longer agrees with XXH3-128 at these stream lengths: look for two target states that differ in one byte of the
+    command (at the start, in the middle, near and at the end of a stream of about that length) and receive the same key."""
+    rng = ctx.rng
+    pairs = []
+    for L in sorted(set(bad_lengths))[:12] + [1500, 5000]:
+        for _ in range(12):
+            base = base_state()
+            n = max(1, L - rng.choice([0, 0, 40, 60, 100]))
+            cmd = [chr(rng.randrange(32, 127)) for _ in range(n)]
+            pos = rng.choice([0, n // 2, n - 1, n - 1, max(0, n - 2), rng.randrange(n)])
+            t = copy.deepcopy(base)
+            base["command"] = "".join(cmd)
+            cmd[pos] = "~" if cmd[pos] != "~" else "!"
+            t["command"] = "".join(cmd)
+            pairs.append((base, t))
+    reqs = []
+    for s1, s2 in pairs:
+        reqs.append(to_req(s1, "xxh3", "ws", rng)); reqs.append(to_req(s2, "xxh3", "ws", rng))
+    out = ctx.impl(reqs, env=env)
+    if out is None:
+        return 0
+    for i, (s1, s2) in enumerate(pairs):
+        k1, k2 = out[2 * i].get("key"), out[2 * i + 1].get("key")
+        if k1 is not None and k1 == k2:
+            ctx.violation("two different target states receive the same cache key (the xxh3 hasher ignores part of the stream)",
+                          {"kind": "oracle", "oracle": "equal key => equal state (search after the xxh3 hasher stopped computing XXH3-128)", "algo": "xxh3",
+                           "state1": s1, "state2": s2, "key": k1}, signature="collision:hasher")
+            break
+    return len(pairs)
 
 
 def search_failing_pair(ctx, env, n):
@@ -595,6 +652,5 @@ def replay(ctx, rep):
         print("states equal per property text:", canon_state(rep["state1"]) == canon_state(rep["state2"]))
     elif "request" in rep:
         print("impl :", ctx.impl([rep["request"]], env=env)[0])
-        if rep["request"].get("algo") == "sha256" or rep["request"]["op"] == "hash.sha256":
-            print("model:", ctx.model([rep["request"]])[0])
+        print("model:", ctx.model([rep["request"]])[0])
     return 0
